@@ -8,13 +8,15 @@
 //	O  mode-independent-outcome     ok / err is the same in both modes
 //	O  mode-independent-tree        the canonical tree dump is the same in both modes
 //	O  mode-independent-json        the visitors.JSON rendering is the same in both modes
-//	O  <the nine oracles of faithful.go> on the tree of each mode
+//	O  mode-independent-nvar-me     the extended dump (NVAR stores, ME partition tables; xdump.go) is the same in both modes
+//	O  <the twelve oracles of faithful.go / nvwalk.go> on the tree of each mode
 //	O  walker-covers-tree           the walker saw exactly the nodes a uefi.Visitor reaches
-//	M  parse                        the Lean model (drv_c04) answers the same "ok <digest> <nodes>" | "err"
+//	M  parse                        the Lean model (drv_c04) answers the same "ok <digest> <nodes> <x digest>" | "err"
+//	                                (x digest: NVAR stores and ME partition tables, derived by the model from the input alone)
 //	M  parse-nodecompress           the same with uefi.DisableDecompression (only when the input holds a codec GUID)
 //
-// The model's codec / NVAR hooks are fed with what the walker observed by re-running the decoders on
-// the tree Go returned; when Go refuses an input that contains a codec GUID the table cannot be
+// The model's codec hook is fed with what the walker observed by re-running the decoders on the tree Go
+// returned (the NVAR hook is the model's own: C10's NewNVarStore); when Go refuses an input that contains a codec GUID the table cannot be
 // reconstructed and the M check with decompression is skipped (the one without is still made).
 //
 // A panic / log.Fatalf / hang inside Parse is property C05's business: it is counted (class "panic",
@@ -26,7 +28,6 @@ import (
 	"fmt"
 	"math/rand"
 	"os"
-	"sort"
 	"strings"
 	"time"
 
@@ -55,6 +56,7 @@ type parsed struct {
 	detail  string
 	tree    fuefi.Firmware
 	touched bool // the buffer handed to Parse was modified
+	pol     byte // uefi.Attributes.ErasePolarity when Parse returned
 }
 
 // parseOnce runs uefi.Parse on a private copy of `in` in a fresh process state.
@@ -76,6 +78,7 @@ func parseOnce(in []byte, readOnly, noDecompress bool) parsed {
 			p.tree = t
 			return err
 		})
+		p.pol = fuefi.Attributes.ErasePolarity
 		os.Stdout = stdout
 		done <- p
 	}()
@@ -129,15 +132,12 @@ func hasCodecGUID(in []byte) bool {
 	return false
 }
 
+// hookArgs: the model's NVAR hook is C10's model of NewNVarStore ("c10"); the codec hook is fed with what
+// the walker observed by re-running the decoders.
 func hookArgs(w *walker) (nv, codecs string) {
-	nv, codecs = "-", "-"
+	nv, codecs = "c10", "-"
 	if w == nil {
 		return
-	}
-	if len(w.nvars) > 0 {
-		ks := append([]string(nil), w.nvars...)
-		sort.Strings(ks)
-		nv = strings.Join(ks, ",")
 	}
 	if len(w.decodes) > 0 {
 		seen := map[string]bool{}
@@ -166,7 +166,7 @@ func expOf(p parsed, w *walker) string {
 	if p.class != "ok" {
 		return p.class
 	}
-	return fmt.Sprintf("ok %s %d", hu.Digest(p.tree), w.nodes)
+	return fmt.Sprintf("ok %s %d %s", hu.Digest(p.tree), w.nodes, xDigest(p.tree))
 }
 
 func runBytes(kind string, in []byte) core.Outcome {
@@ -195,8 +195,9 @@ func runBytes(kind string, in []byte) core.Outcome {
 	if cp.class == "ok" && ro.class == "ok" {
 		add("mode-independent-tree", hu.Digest(cp.tree), hu.Digest(ro.tree))
 		add("mode-independent-json", jsonOf(cp.tree), jsonOf(ro.tree))
-		wcp = checkFaithful(cp.tree, in, false)
-		wro := checkFaithful(ro.tree, in, false)
+		add("mode-independent-nvar-me", xDigest(cp.tree), xDigest(ro.tree))
+		wcp = checkFaithful(cp.tree, in, false, cp.pol)
+		wro := checkFaithful(ro.tree, in, false, ro.pol)
 		for _, name := range oracleNames {
 			got := "ok"
 			if s, bad := wcp.bad[name]; bad {
@@ -210,7 +211,7 @@ func runBytes(kind string, in []byte) core.Outcome {
 		c.Run(cp.tree)
 		add("walker-covers-tree", fmt.Sprint(c.n), fmt.Sprint(wcp.nodes))
 	} else if cp.class == "ok" {
-		wcp = checkFaithful(cp.tree, in, false)
+		wcp = checkFaithful(cp.tree, in, false, cp.pol)
 	}
 
 	// model correspondence
@@ -221,7 +222,7 @@ func runBytes(kind string, in []byte) core.Outcome {
 		if codecIn {
 			nd = parseOnce(in, false, true)
 			if nd.class == "ok" {
-				wnd = checkFaithful(nd.tree, in, true)
+				wnd = checkFaithful(nd.tree, in, true, nd.pol)
 				for _, name := range oracleNames {
 					if s, bad := wnd.bad[name]; bad {
 						add(name, "ok", "decompression disabled: "+s)
@@ -239,7 +240,7 @@ func runBytes(kind string, in []byte) core.Outcome {
 			// saw.  The tree parsed *without* decompression does, one level deep: re-run the decoders on
 			// its GUID-defined sections.  If a decoded payload itself holds a codec GUID the table may be
 			// incomplete and the comparison is skipped.
-			probe := checkFaithful(nd.tree, in, false)
+			probe := checkFaithful(nd.tree, in, false, nd.pol)
 			complete := true
 			for _, d := range probe.decodes {
 				if !d.err && hasCodecGUID(d.out) {
@@ -249,7 +250,7 @@ func runBytes(kind string, in []byte) core.Outcome {
 			if complete {
 				_, cs := hookArgs(probe)
 				out.Checks = append(out.Checks, core.Check{Tag: "M", What: "parse",
-					Req: fmt.Sprintf("parse %s 0 - %s", core.Hex(in), cs), Exp: cp.class})
+					Req: fmt.Sprintf("parse %s 0 c10 %s", core.Hex(in), cs), Exp: cp.class})
 			}
 		}
 		if codecIn && (nd.class == "ok" || nd.class == "err") {
@@ -262,12 +263,36 @@ func runBytes(kind string, in []byte) core.Outcome {
 	out.Class = kindClass(kind) + ":" + cp.class
 	if cp.class == "ok" {
 		out.Class += ":" + shapeOf(cp.tree)
-		out.Key = hu.Digest(cp.tree)
+		if wcp != nil {
+			if wcp.nvStores > 0 {
+				out.Class += fmt.Sprintf(" nvar=%s", bucket(wcp.nvEntries))
+				if wcp.nvOverlap > 0 {
+					out.Class += " nvar-overlap"
+				}
+			}
+			if wcp.meTables > 0 {
+				out.Class += " fpt"
+			}
+		}
+		out.Key = hu.Digest(cp.tree) + xDigest(cp.tree)
 	} else {
 		out.Key = fmt.Sprintf("err:%016x", core.FNV(in))
 		out.Trivial = len(in) < 32
 	}
 	return out
+}
+
+func bucket(n int) string {
+	switch {
+	case n == 0:
+		return "0"
+	case n == 1:
+		return "1"
+	case n < 5:
+		return "2-4"
+	default:
+		return "5+"
+	}
 }
 
 func kindClass(kind string) string {
@@ -382,6 +407,8 @@ func (prop) Gen(r *rand.Rand, tier string) []core.Case {
 	cs = append(cs, extHeaderCases(r)...)
 	cs = append(cs, compressedCases(r, thorough)...)
 	cs = append(cs, mutantCases(r, thorough)...)
+	cs = append(cs, nvarCases(r, thorough)...)
+	cs = append(cs, meCases(r, thorough)...)
 	cs = append(cs, fuzzCases(r, thorough)...)
 	return cs
 }
